@@ -52,7 +52,9 @@ def run_wire(ctx, pid, k):
 
 
 def binding_demo(ctx, rows, mutate, want_prefix):
-    bad = [json.loads(json.dumps(r)) for r in rows[:400]]
+    # an evenly strided sample of the whole trace (every opcode / class family occurs in it)
+    step = max(1, len(rows) // 1200)
+    bad = [json.loads(json.dumps(r)) for r in rows[::step]]
     mutate(bad)
     bf = ctx.path("corrupt.ndjson")
     C.write_ndjson(bf, bad)
